@@ -128,5 +128,52 @@ def jobs(tier):
         js.append(dict(name=f'H1c:derived:k{k}', fn='h_derived', params=dict(k=k)))
     for k in ks:
         js.append(dict(name=f'H1c:trx:k{k}', module='harness.elems', fn='h_trx', params=dict(k=k, n_added=0, props=('C01',))))
+    js.append(dict(name='H1c:trx:update_twice:k2', module='harness.elems', fn='h_trx',
+                   params=dict(k=2, n_added=2, props=('C01',), repeat=2)))
+    for k in ks[1:]:
+        for via in ('init', 'add'):
+            js.append(dict(name=f'H1a:construct_interleaved:{via}:k{k}', fn='h_construct_interleaved', params=dict(k=k, via=via)))
     js += elems.jobs_c01(tier)
     return js
+
+
+def h_construct_interleaved(ctx, k, via):
+    """SpectralInformation built from channels supplied in an arbitrary (interleaved) order, directly or by adding two
+    interleaved combs: every per-channel quantity stays attached to its own carrier"""
+    import itertools
+    from gnpy.core.info import SpectralInformation
+    symbolic_ctors(ctx)
+    perms = list(itertools.permutations(range(k)))
+    perm = ctx.choice('order', perms)
+    f = [193.0e12 + 100e9 * i for i in range(k)]
+    ref = make_si(ctx, k, freqs=f, spacing=100e9, slot=50e9, extra=dict(
+        chromatic_dispersion=arr([1e-3 * (i + 1) for i in range(k)]), pmd=arr([1e-12 * (i + 1) for i in range(k)])))
+    pre = snap(ref)
+
+    def sub(idx):
+        idx = list(idx)
+        pick = lambda a: arr([a[i] for i in idx])        # noqa
+        lab = np.array([pre['label'][i] for i in idx], dtype=object)
+        return SpectralInformation(
+            frequency=arr([f[i] for i in idx]), baud_rate=pick(ref.baud_rate), slot_width=pick(ref.slot_width),
+            pch=pick(pre['p']), signal_ratio=pick(pre['s']), ase_ratio=pick(pre['a']), nli_ratio=pick(pre['n']),
+            roll_off=pick(ref.roll_off), chromatic_dispersion=pick(ref.chromatic_dispersion), pmd=pick(ref.pmd),
+            pdl=pick(ref.pdl), latency=pick(ref.latency), delta_pdb_per_channel=pick(ref.delta_pdb_per_channel),
+            tx_osnr=pick(ref.tx_osnr), tx_power=pick(ref.tx_power), label=lab)
+    if via == 'init':
+        out = sub(perm)
+    else:
+        # two interleaved combs in the given order: first gets positions perm[0::2], second perm[1::2]
+        a, b = sub(perm[0::2]), sub(perm[1::2])
+        out = a + b
+    ctx.prove('construct:channel_count', out.number_of_channels == k)
+    for i in range(k):
+        ctx.prove(f'construct:sorted_by_frequency[{i}]', out.frequency[i] == f[i])
+        ctx.prove(f'construct:label_follows_carrier[{i}]', out.label[i] == pre['label'][i])
+        ctx.prove(f'construct:power_follows_carrier[{i}]', eq(out._pch[i], pre['p'][i]))
+        ctx.prove(f'construct:signal_share_follows_carrier[{i}]', eq(out._signal_ratio[i], pre['s'][i]))
+        ctx.prove(f'construct:ase_share_follows_carrier[{i}]', eq(out._ase_ratio[i], pre['a'][i]))
+        ctx.prove(f'construct:nli_share_follows_carrier[{i}]', eq(out._nli_ratio[i], pre['n'][i]))
+        ctx.prove(f'construct:cd_pmd_follow_carrier[{i}]', out.chromatic_dispersion[i] == ref.chromatic_dispersion[i]
+                  and out.pmd[i] == ref.pmd[i])
+    prove_invariant(ctx, out, 'construct')
